@@ -89,10 +89,15 @@ fn run_req(entry: &str, flags: u32, cap: usize, buf: &[u8]) -> String {
     let na = allocs() - a0;
     let (st, n) = status_json(&r, |x| *x);
     let utf = utf8_flag(req.method) && utf8_flag(req.path);
-    format!("{{\"status\":{},\"n\":{},\"allocs\":{},\"method\":{},\"path\":{},\"version\":{},\"hlen\":{},\"hlen_before\":{},\"headers\":{},\"utf8\":{}}}",
+    let head = format!("\"status\":{},\"n\":{},\"allocs\":{},\"method\":{},\"path\":{},\"version\":{},\"hlen\":{},\"hlen_before\":{},\"headers\":{},\"utf8\":{}",
             st, n, na, opt_str(buf, req.method), opt_str(buf, req.path),
             req.version.map(|v| v.to_string()).unwrap_or("null".into()),
-            req.headers.len(), req_hdrs_len_before, headers_json(buf, req.headers), utf)
+            req.headers.len(), req_hdrs_len_before, headers_json(buf, req.headers), utf);
+    let init_api = entry == "req" || entry == "req_cfg";
+    drop(req);
+    // the caller's whole array after the call (initialised-array entry points only): which slots still hold their sentinel
+    let cells = if init_api { headers_json(buf, &arr[..cap]) } else { "null".to_string() };
+    format!("{{{},\"cells\":{}}}", head, cells)
 }
 
 fn run_resp(entry: &str, flags: u32, cap: usize, buf: &[u8]) -> String {
@@ -111,10 +116,14 @@ fn run_resp(entry: &str, flags: u32, cap: usize, buf: &[u8]) -> String {
     let na = allocs() - a0;
     let (st, n) = status_json(&r, |x| *x);
     let utf = utf8_flag(resp.reason);
-    format!("{{\"status\":{},\"n\":{},\"allocs\":{},\"version\":{},\"code\":{},\"reason\":{},\"hlen\":{},\"hlen_before\":{},\"headers\":{},\"utf8\":{}}}",
+    let head = format!("\"status\":{},\"n\":{},\"allocs\":{},\"version\":{},\"code\":{},\"reason\":{},\"hlen\":{},\"hlen_before\":{},\"headers\":{},\"utf8\":{}",
             st, n, na, resp.version.map(|v| v.to_string()).unwrap_or("null".into()),
             resp.code.map(|v| v.to_string()).unwrap_or("null".into()),
-            opt_str(buf, resp.reason), resp.headers.len(), before, headers_json(buf, resp.headers), utf)
+            opt_str(buf, resp.reason), resp.headers.len(), before, headers_json(buf, resp.headers), utf);
+    let init_api = entry == "resp" || entry == "resp_cfg";
+    drop(resp);
+    let cells = if init_api { headers_json(buf, &arr[..cap]) } else { "null".to_string() };
+    format!("{{{},\"cells\":{}}}", head, cells)
 }
 
 fn run_headers(cap: usize, buf: &[u8]) -> String {
